@@ -37,6 +37,8 @@ pub struct Run {
     /// the descriptors of the current request carry an unknown credential type
     pub unknown_type: bool,
     pub run_idx: u64,
+    /// the client request in preparation carries both `prf` and `prfAlreadyHashed`
+    pub both_members: bool,
 }
 
 fn alg_of(name: &str) -> iana::Algorithm {
@@ -80,7 +82,7 @@ pub fn build_auth_with<S: passkey_authenticator::CredentialStore>(cfg: &Value, s
 
 impl Run {
     pub fn new(seed: u64) -> Self {
-        Run { sh: new_shared(), client: None, cfg: Value::Null, rng: util::rng(seed), salts: vec![], cdh: vec![], seen_ids: vec![], extern_contents: None, unknown_type: false, run_idx: 0 }
+        Run { sh: new_shared(), client: None, cfg: Value::Null, rng: util::rng(seed), salts: vec![], cdh: vec![], seen_ids: vec![], extern_contents: None, unknown_type: false, run_idx: 0, both_members: false }
     }
 
     pub fn reset(&mut self, run: u64, cfg: &Value, store: &Value) {
@@ -468,8 +470,27 @@ impl Run {
         d
     }
 
+    /// The environment changes between two ceremonies (api "env"): the user enrols into / loses user verification,
+    /// the store changes the discoverability support it reports.  The authenticator object stays the same.
+    fn reconfigure(&mut self, c: &Value) {
+        let r = &c["req"];
+        for k in ["uvCap", "upCap", "disc"] {
+            self.cfg[k] = r[k].clone();
+        }
+        let disc: &'static str = match r["disc"].as_str().unwrap() {
+            "full" => "full",
+            "nondisc" => "nondisc",
+            _ => "forced",
+        };
+        self.sh.lock().unwrap().env_now = Some((uv_cap_of(r["uvCap"].as_str().unwrap()), r["upCap"].as_bool().unwrap(), disc));
+        self.push(json!({"ev": "Reconfig", "d": {"cfg": self.cfg}}));
+    }
+
     /// Run one ceremony of a behaviour and append its events.
     pub fn ceremony(&mut self, c: &Value) {
+        if c["api"] == "env" {
+            return self.reconfigure(c);
+        }
         self.salts.clear();
         self.set_env(&c["env"]);
         self.unknown_type = c["req"]["unkType"].as_bool().unwrap_or(false);
